@@ -45,9 +45,18 @@ SubstFunc(node, sg) ==
               IF byName # {} THEN SetMax(byName) ELSE 0      \* variable_assignments[var.name]
          ELSE 0
 
-\* primitives.is_zero(result): bool() of a non-expression is False
-IsZeroTree(r) == \/ (r.t = "Const" /\ IsNum(r.v) /\ r.v.n = 0)
-                 \/ (r.t \in {"Tup", "List"} /\ Len(r.c) = 0)
+\* primitives.is_zero(result) == not bool(result): a number is zero when it is 0, a
+\* container when it is empty; of the expression classes only Sum, Product and
+\* QuotientBase define __bool__ (Sum: one child -> that child's; Product: no child
+\* is_zero; Quotient / FloorDiv / Remainder: the numerator's), every other node is true
+RECURSIVE IsZeroTree(_)
+IsZeroTree(r) ==
+    CASE r.t = "Const" -> IsNum(r.v) /\ r.v.n = 0
+      [] r.t \in {"Tup", "List"} -> Len(r.c) = 0
+      [] r.t = "Sum" -> Len(r.c) = 1 /\ IsZeroTree(r.c[1])
+      [] r.t = "Product" -> \E i \in 1..Len(r.c) : IsZeroTree(r.c[i])
+      [] r.t \in {"Quotient", "FloorDiv", "Remainder"} -> IsZeroTree(r.a)
+      [] OTHER -> FALSE
 
 AllSame(rs) == \A i \in 1..Len(rs) : rs[i].same
 \* "if all children are identical return expr, else type(expr)(*children)"
@@ -123,4 +132,21 @@ Dev_CSEZeroFold(e, sg) ==
 DevOfSubtree(s, sg) == IF ContainsList(s) THEN "ListCopied"
                        ELSE IF Dev_CSEZeroFold(s, sg) THEN "CSEZeroFold"
                        ELSE "none"
+
+\* ---- the positions at which the result holds the identical object of the input --------
+\* (what the driver records by walking input and result in parallel for as long as
+\* the classes and arities agree)
+IsFoldPoint(e, sg) == e.t = "CSE" /\ IsZeroTree(Impl(e.a, sg).e)
+RECURSIVE ImplSameFrom(_, _, _)
+ImplSameFrom(e, sg, p) ==
+    IF Impl(e, sg).same THEN { p }
+    ELSE IF Hit(e, sg) # 0 \/ IsFoldPoint(e, sg) THEN {}
+    ELSE UNION { ImplSameFrom(Kids(e)[i], sg, Append(p, i)) : i \in 1..Len(Kids(e)) }
+ImplSameSet(e, sg) == ImplSameFrom(e, sg, << >>)
+
+\* the deviation that explains why position p of MustSame did not come back identical:
+\* one inside the subtree, or a CSE above it that was folded to 0 as a whole
+FoldAbove(e, sg, p) == \E q \in ProperPrefixes(p) : IsFoldPoint(At(e, q), sg)
+DevAt(e, sg, p) == IF DevOfSubtree(At(e, p), sg) # "none" THEN DevOfSubtree(At(e, p), sg)
+                   ELSE IF FoldAbove(e, sg, p) THEN "CSEZeroFold" ELSE "none"
 =============================================================================
